@@ -141,6 +141,15 @@ CLAIMED['C11'] = dict(
     note='Trusted: z3; Newton solve stubbed (numeric reruns up to floating-point noise are outside); one scenario network; <= 2 hydraulic steps. Known findings: controls on pump power and on pump base_speed write the definition.',
     ref='DESIGN.md section 4, C11')
 
+CLAIMED['C10'] = dict(
+    engine='symx+ctrlplane',
+    technique='symbolic execution of the real run_sim loop (Newton solve stubbed) once uninterrupted and once in 2-3 pieces with a new simulator per piece and an optional pickle round trip, on symbolic control/rule/leak instants, setting values and a tank-level threshold; every feasible path explored; SMT (z3) decides record-by-record equality and strict monotonicity of the concatenated times',
+    text='For time controls, rules on a finer rule grid (with ELSE), a clock-time control with symbolic start_clocktime, a leak window straddling the pause and a tank-level control, with one or two pauses on the hydraulic grid, '
+         'with and without pickling the model between the parts: the continued run starts at the first hydraulic step after the pause, the concatenated times strictly increase, and the concatenated records '
+         '(times, statuses, settings, flows, tank heads, demands, leak demands) equal those of the uninterrupted run for ALL instants/values.',
+    note='Trusted: z3; Newton solve stubbed (same function of the model state in both runs); pickle of real floats and numeric equality are covered by the concrete replay only; T <= 3 hydraulic steps; one scenario network.',
+    ref='DESIGN.md section 4, C10')
+
 NOT_APPLICABLE = {
     'C03': 'compares the numerical output of the closed EPANET shared library with a compiled Newton/SuperLU iteration; neither can be executed '
            'symbolically with the tools on this image and a contract standing in for EPANET would be the property itself (DESIGN.md section 5)',
